@@ -1,5 +1,6 @@
 """C04 — sniproxy: loss or shutdown of an endpoint never strands a caller (DESIGN.md §7 C04)."""
 import json
+import os
 
 import rpc_common
 import vlib
@@ -42,7 +43,10 @@ def env(st):
     op = st["op"]
     if op == "new":
         ctx = "CtxNever" if st.get("ctx") == "never" else "CtxOpen"
-        return "EnvNew %d %s %s %s" % (st["k"], ctx, b(st.get("kind") == "shutdown"), b(st.get("kind") == "closeall"))
+        return "EnvNew %d %s %s %s %s" % (st["k"], ctx, b(st.get("kind") == "shutdown"),
+                                          b(st.get("kind") == "closeall"), b(st.get("kind") == "sidedial"))
+    if op == "deliver":
+        return "EnvDeliver %d" % st["k"]
     if op == "reply":
         return "EnvFrame %d %s" % (st["k"], b(st.get("good")))
     if op == "sever":
@@ -96,9 +100,35 @@ def impl_oracle(c):
         if not c.get("serve_done"):
             out.append(("serve-not-done", "the serve loop did not exit after the connection was lost"))
         return out
+    if c["stream"] == "ep":
+        for x in c.get("ep", []):
+            if not x["returned"]:
+                out.append(("%s-stuck" % x["kind"],
+                            "endpoint side, scenario '%s': a goroutine in %s had not returned after 10 s"
+                            % (c["fault"], {"accept": "Endpoint.Accept", "close": "Endpoint.Close",
+                                            "dial": "Dial (sendAccept on the endpoint)"}[x["kind"]])))
+            elif c["fault"] == "sendaccept-close" and x["kind"] == "dial" and x.get("after_ms", 0) > 3000:
+                out.append(("sendaccept-not-released",
+                            "a dial whose sendAccept was waiting for somebody to accept returned only %d ms after "
+                            "Endpoint.Close had returned (p.closed must release it at once)" % x["after_ms"]))
+        if c.get("sendaccept_left", 0) > 0:
+            out.append(("sendaccept-not-released",
+                        "%d goroutine(s) are still waiting in Endpoint.sendAccept 3 s after Endpoint.Close returned "
+                        "(closing p.closed must release them at once)" % c["sendaccept_left"]))
+        if c.get("close_ms", 0) > 8000:
+            out.append(("close-slow", "Endpoint.Close took %d ms (its graceful wait is bounded by a 5 s timer)"
+                        % c["close_ms"]))
+        if c.get("leak"):
+            out.append(("goroutine-left", "goroutines still inside sniproxy/netutil after teardown: %s"
+                        % ", ".join(sorted(set(c["leak"]))[:4])))
+        return out
     # e2e
     fc = c.get("front_closed") or []
-    if not all(fc):
+    side = c["fault"].startswith("side-")
+    if c.get("mid_dial") == "stuck":
+        out.append(("side-dial-stranded", "a front connection whose side dial was in flight when the endpoint was "
+                                          "kicked is still waiting 12 s later"))
+    if not all(fc) and not side:      # (side connections are not multiplexed over the control connection)
         out.append(("front-not-closed", "%d of %d tunnelled front connections were not closed by the proxy within "
                                         "10 s of the fault '%s'" % (len([x for x in fc if not x]), len(fc), c["fault"])))
     if not c.get("unregistered"):
@@ -134,17 +164,44 @@ def run(ck):
         cases = rpc_common.run_script(ck, binp, [replayed])
         ck.log("replaying %s: %d case(s)" % (ck.replay, len(cases)))
     elif binp:
-        import os
         bound = os.environ.get("VERIF_C04_BOUND", "10")     # observation bound in seconds
         n = int(os.environ.get("VERIF_C04_N", n))           # (for demonstrations on a defective tree,
         ne = int(os.environ.get("VERIF_C04_E2E", ne))       #  where every stranded thread costs a bound)
-        rc, out, err = vlib.sh2([binp, "-seed", str(ck.seed), "-n", str(n), "-e2e", str(ne), "-bound", bound],
+        nep = int(os.environ.get("VERIF_C04_EP", 8 if not ck.thorough else 64))
+        rc, out, err = vlib.sh2([binp, "-seed", str(ck.seed), "-n", str(n), "-e2e", str(ne), "-bound", bound,
+                                 "-ep", str(nep)],
                                 timeout=6000)
         if rc != 0:
             ck.broken.append({"what": "harness run failed", "detail": err[-1500:]})
         for line in out.splitlines():
             if line.startswith("{"):
                 cases.append(json.loads(line))
+
+    # concurrent side dials under the race detector (the session key source is shared by all dials)
+    if binp and replayed is None:
+        rb = ck.build_harness("c04", race=True)
+        if rb:
+            script = [{"stream": "tl", "steps": [{"op": "new", "k": 1, "kind": "sidedial", "ctx": "never"},
+                                                 {"op": "burst", "k": 10, "n": 48 if not ck.thorough else 200,
+                                                  "kind": "sidedial"},
+                                                 {"op": "reply", "k": 1, "good": True}, {"op": "sever"}]}
+                      for _ in range(2 if not ck.thorough else 10)]
+            d = os.path.join(vlib.BUILD, "cases", ck.pid)
+            os.makedirs(d, exist_ok=True)
+            sp = os.path.join(d, "race_script.json")
+            json.dump(script, open(sp, "w"))
+            rc, out, err = vlib.sh2([rb, "-script", sp, "-child"], timeout=1200)   # (child mode: stderr is ours)
+            nraces = err.count("WARNING: DATA RACE")
+            ck.coverage["race_detector_scenarios"] = len(script)
+            ck.coverage["data_races"] = nraces
+            for line in out.splitlines():
+                if line.startswith("{"):
+                    ck.count("race", key=("race", len(script)), trivial=False)
+            if nraces:
+                first = err[err.find("WARNING: DATA RACE"):][:1800]
+                ck.violation("impl:data-race", "the race detector reports a data race between concurrent side dials "
+                             "(a racing math/rand source can index out of range and crash the process)",
+                             {"case": script[0], "race_report": first, "races": nraces})
 
     faults, kinds = {}, {}
     shrunk = set()
@@ -157,6 +214,10 @@ def run(ck):
             for x in c.get("callers", []):
                 kk = "%s/%s" % (x["kind"], x["ctx"])
                 kinds[kk] = kinds.get(kk, 0) + 1
+        elif c["stream"] == "ep":
+            key = json.dumps(["ep", c["fault"], c["conns"], [(x["kind"], x["returned"]) for x in c.get("ep", [])]])
+            trivial = False
+            faults["ep:" + c["fault"]] = faults.get("ep:" + c["fault"], 0) + 1
         else:
             key = json.dumps([c["fault"], c["conns"], c.get("hold"), c.get("front_closed")])
             trivial = c["conns"] == 0
@@ -173,7 +234,7 @@ def run(ck):
                          {"case": small, "original_case": c if small is not c else None,
                           "expected": "every operation returns, front connections are closed, the name "
                                       "is unregistered, serving terminates, no goroutine is left",
-                          "observed": {k2: small.get(k2) for k2 in ("callers", "reader_alive", "front_closed",
+                          "observed": {k2: small.get(k2) for k2 in ("callers", "reader_alive", "front_closed", "mid_dial", "ep", "close_ms",
                                                                     "unregistered", "servefront_returned", "leak")}})
     ck.coverage["e2e_faults"] = faults
     ck.coverage["tl_caller_kinds"] = kinds
@@ -237,9 +298,13 @@ def run(ck):
              "reading}; every scenario ends with the connection lost) replayed on the model; plus "
              "end-to-end scenarios {endpoint-side sever, server-side sever, graceful close, kick, kick while the old "
              "control path is black-holed by a frozen TCP relay, server-side serve loop ended by an error-byte reply "
-             "while the websocket is healthy} x 0-8 tunnelled "
+             "while the websocket is healthy; in the side modes: control connection lost on either side with side "
+             "connections established, endpoint kicked while a side dial is in flight and its side websocket is held "
+             "in the server} x 0-8 tunnelled "
              "TLS front connections with the server thread held after serve() until the connections' close calls "
-             "are issued. Non-trivial: a scenario with >= 1 caller / >= 1 front connection; distinct = distinct "
+             "are issued; plus endpoint-side scenarios driving Endpoint.Accept / Close / sendAccept explicitly (Accept "
+             "pending when the server severs, kicks or closes the endpoint; two Close calls concurrent with Accepts; 12 "
+             "dials with nobody accepting, then Close or a late Accept). Non-trivial: a scenario with >= 1 caller / >= 1 front connection; distinct = distinct "
              "(steps, per-caller outcome) resp. (fault, connections, hold, outcome)",
         assumptions=["enabled goroutines are eventually scheduled (Go runtime)",
                      "a 10 s observation bound stands in for 'bounded time'",
